@@ -128,7 +128,7 @@ def edges(ctx, P):
         ctx.violation(ob, "R5.edge-direction", "StateDigraph.initialise_at_node", "add_nodes_from", "servers-not-registered", "server vertices must be added when a finite node is created", loc(ci.node))
     # detach removes the edges of that server
     fn = ci.methods.get("action_at_detatch_server")
-    txt = unparse(fn) if fn else ""
+    txt = unparse(rules.inline_locals(fn, fn)) if fn else ""
     ob.ok("action_at_detatch_server:remove_edges")
     if "remove_edges_from" not in txt or "in_edges(str(server))" not in txt.replace(" ", "") or "out_edges(str(server))" not in txt.replace(" ", ""):
         ctx.violation(ob, "R5.edge-direction", "StateDigraph.action_at_detatch_server", "remove_edges_from(in_edges + out_edges)", "edges-not-removed",
@@ -142,7 +142,11 @@ def detector_shape(ctx, P):
     if fn is None:
         raise AnalysisError("StateDigraph.detect_deadlock not found")
     writes = [x for x in ast.walk(fn) if isinstance(x, (ast.Assign, ast.AugAssign)) and any(isinstance(t, ast.Attribute) for t in (x.targets if isinstance(x, ast.Assign) else [x.target]))]
-    reads = sorted(set(y.attr for y in ast.walk(fn) if isinstance(y, ast.Attribute) and isinstance(y.value, ast.Name) and y.value.id == "self"))
+    dview = P.view("StateDigraph")
+    # (newly extracted helpers are read through; calling a method of the detector is not reading state)
+    reads = sorted(set(y.attr for y in rules.walk(P, dview, fn) if isinstance(y, ast.Attribute) and isinstance(y.value, ast.Name) and y.value.id == "self"
+                       and (dview.resolve(y.attr) is None or dview.is_property(y.attr))))
+    writes = [x for x in rules.walk(P, dview, fn) if isinstance(x, (ast.Assign, ast.AugAssign)) and any(isinstance(t, ast.Attribute) for t in (x.targets if isinstance(x, ast.Assign) else [x.target]))]
     ob.ok("detect_deadlock:reads=%s" % reads, "detect_deadlock reads self.%s, writes nothing" % reads)
     for w_ in writes:
         ctx.violation(ob, "R10.detector-pure", "StateDigraph.detect_deadlock", unparse(w_)[:80], "detector-has-state",
@@ -151,7 +155,10 @@ def detector_shape(ctx, P):
         ctx.violation(ob, "R10.detector-pure", "StateDigraph.detect_deadlock", "reads self.%s" % reads, "detector-reads-other-state",
                       "the verdict must depend on the wait-for graph only", loc(fn))
     scan = [x for x in ast.walk(fn) if isinstance(x, ast.For) and "strongly_connected_components(self.statedigraph)" in unparse(x.iter)]
-    if not scan:
+    comp_scan = [x for x in rules.walk(P, dview, fn) if isinstance(x, ast.comprehension) and "strongly_connected_components(self.statedigraph)" in unparse(x.iter)]
+    if not scan and comp_scan:
+        pass        # any(... for c in strongly_connected_components(...)): the scan is the whole expression, nothing can precede it
+    elif not scan:
         ctx.violation(ob, "R10.detector-pure", "StateDigraph.detect_deadlock", "component scan", "no-component-scan", "the knot search must examine the strongly connected components of the digraph", loc(fn))
     else:
         for r in [x for x in ast.walk(fn) if isinstance(x, ast.Return)]:
